@@ -16,7 +16,7 @@ META = {
                    "to the transformed parents (all input keys kept); duplicate detection compares outputs, input names, the consumed output name "
                    "and the parent identity (exact truth table); fusion is attempted only for single-consumer parents and a fused node inherits the "
                    "consumer count; expansion keys sub-graph leaves by their exact un-prefixed names (no character-set stripping); a cut edge's "
-                   "sink and source share one name and every input is kept or cut. Not decided: denotational equality over all DAGs.",
+                   "sink and source share one name and every input is kept or cut. Later rules: cut names digest the whole record, spliced names are injective ('n' vs 'pre.n'), a transformed parent's output is looked up as an output for any output name. Not decided: denotational equality over all DAGs.",
     "assumptions": ["user callbacks (fusion, expander, key function, splice overrides) are opaque"],
 }
 
